@@ -101,22 +101,22 @@ func init() {
 		r.objs["stdout"] = []value(nil)
 		return append([]value{}, out...)
 	})
-	capture := func(fr *frame, s value) value {
+	capture := func(fr *frame, format func() value) value {
 		r := fr.run()
 		if r.flags["captureStdout"] != 0 {
 			out, _ := r.objs["stdout"].([]value)
-			r.objs["stdout"] = append(out, s)
+			r.objs["stdout"] = append(out, format())
 		}
 		return tuple{0, nilErr}
 	}
 	interceptTable["fmt.Println"] = func(fr *frame, a []value) value {
-		return capture(fr, fr.sprint(a[0].([]value), true))
+		return capture(fr, func() value { return fr.sprint(a[0].([]value), true) })
 	}
 	interceptTable["fmt.Print"] = func(fr *frame, a []value) value {
-		return capture(fr, fr.sprint(a[0].([]value), false))
+		return capture(fr, func() value { return fr.sprint(a[0].([]value), false) })
 	}
 	interceptTable["fmt.Printf"] = func(fr *frame, a []value) value {
-		return capture(fr, fr.sprintf(a[0], a[1].([]value)))
+		return capture(fr, func() value { return fr.sprintf(a[0], a[1].([]value)) })
 	}
 	// fatal log calls end the process: modelled as a panic of the interpreted program that a harness may recover
 	for _, m := range []string{"Fatalf", "Fatal", "Fatalw", "Fatalln"} {
